@@ -729,7 +729,9 @@ func firstLine(s string) string {
 
 var names = []string{"a", "b", "c"}
 
-func universe(depth int) []string {
+func universe(depth int) []string { return universeOver(names, depth) }
+
+func universeOver(names []string, depth int) []string {
 	var out []string
 	var rec func(prefix string, d int)
 	rec = func(prefix string, d int) {
@@ -749,6 +751,9 @@ func universe(depth int) []string {
 
 var uni3 = universe(3)
 
+// the enumerator only uses the names a and b
+var uniAB3 = universeOver([]string{"a", "b"}, 3)
+
 var variants = []struct {
 	kind   string
 	bucket bool
@@ -763,6 +768,7 @@ type runner struct {
 	root   string
 	m      model
 	probes map[string]bool
+	uni    []string // path universe looked up at the end of the history
 	hist   []string
 	cls    map[string]bool
 	nontr  bool
@@ -770,10 +776,7 @@ type runner struct {
 }
 
 func newRunner(kind string, bucket bool, fail func(string, ...interface{})) *runner {
-	r := &runner{e: getEnv(kind), root: newRoot(bucket), m: model{"": {Dir: true}}, probes: map[string]bool{}, cls: map[string]bool{}, fail: fail}
-	for _, p := range uni3 {
-		r.probes[p] = true
-	}
+	r := &runner{e: getEnv(kind), root: newRoot(bucket), m: model{"": {Dir: true}}, probes: map[string]bool{}, cls: map[string]bool{}, fail: fail, uni: uni3}
 	label := kind
 	if bucket {
 		label += "/bucket"
@@ -829,6 +832,10 @@ func (r *runner) step(o op) {
 			r.probes[k] = true
 		}
 	}
+	r.probes[o.P] = true
+	if o.Q != "" {
+		r.probes[o.Q] = true
+	}
 	if ex.weak {
 		if w := checkWeak(r.m, actual, o.P, o.Q); w != "" {
 			r.fail("after %s (%s, %s): %s\n  history: %s\n  tree before: %s\n  tree after: %s", o, ex.class, outcome, w, r.history(), r.m, actual)
@@ -850,6 +857,7 @@ func (r *runner) step(o op) {
 
 // finish removes the case root recursively and checks that nothing is left.
 func (r *runner) finish() {
+	r.finalProbe()
 	dir, name := util.FullPath(r.root).DirAndName()
 	resp, err := r.e.fs.DeleteEntry(context.Background(), &filer_pb.DeleteEntryRequest{Directory: dir, Name: name, IsRecursive: true, IsDeleteData: true})
 	if err != nil || resp.Error != "" {
@@ -860,6 +868,17 @@ func (r *runner) finish() {
 	}
 	if p := r.e.probe(r.root, r.probes, model{"": {Dir: true}}); p != "" {
 		r.fail("after recursive delete of the case root: %s\n  history: %s\n  tree before: %s", p, r.history(), r.m)
+	}
+}
+
+// finalProbe looks up the whole path universe (not only the paths the history
+// touched) and compares with the reference tree.
+func (r *runner) finalProbe() {
+	for _, p := range r.uni {
+		r.probes[p] = true
+	}
+	if p := r.e.probe(r.root, r.probes, r.m); p != "" {
+		r.fail("at the end of the history: %s\n  history: %s\n  tree: %s", p, r.history(), r.m)
 	}
 }
 
@@ -1002,6 +1021,7 @@ func descGate() string {
 // them, which made the enumeration several times slower.
 func runSequence(t *testing.T, kind string, bucket bool, seq []op, known bool, cleanup bool) {
 	r := newRunner(kind, bucket, t.Fatalf)
+	r.uni = uniAB3
 	for i, o := range seq {
 		o.Tok = "t" + strconv.Itoa(i)
 		if ex := expectOp(r.m, o); ex.intoDesc {
@@ -1031,6 +1051,8 @@ func runSequence(t *testing.T, kind string, bucket bool, seq []op, known bool, c
 	}
 	if cleanup {
 		r.finish()
+	} else {
+		r.finalProbe()
 	}
 	label := "exhaustive-" + kind
 	if bucket {
@@ -1059,7 +1081,11 @@ func TestPropNamespaceExhaustive(t *testing.T) {
 			plans = append(plans, plan{v.kind, v.bucket, l})
 		}
 	}
-	plans = append(plans, plan{fkit.LevelDB2, false, maxAll + 1})
+	name := fmt.Sprintf("namespace-sequences(len<=%d on all 7 store variants; %d ops over %d paths)", maxAll, len(ops), len(exPaths))
+	if vlib.Thorough() {
+		plans = append(plans, plan{fkit.LevelDB2, false, maxAll + 1})
+		name = fmt.Sprintf("namespace-sequences(len<=%d on all 7 store variants, len=%d on leveldb2; %d ops over %d paths)", maxAll, maxAll+1, len(ops), len(exPaths))
+	}
 	idx, owned := 0, 0
 	for _, pl := range plans {
 		n := 1
@@ -1081,7 +1107,7 @@ func TestPropNamespaceExhaustive(t *testing.T) {
 			runSequence(t, pl.kind, pl.bucket, seq, known, owned%8 == 0)
 		}
 	}
-	vlib.Exhaustive(fmt.Sprintf("namespace-sequences(len<=%d on all stores, len=%d on leveldb2; %d ops over %d paths)", maxAll, maxAll+1, len(ops), len(exPaths)), true)
+	vlib.Exhaustive(name, true)
 }
 
 // ---------------------------------------------------------------- finding probes
